@@ -67,6 +67,7 @@ class C13(runner.Check):
 
         add("contained", p=2)
         add("rms", te=(4, 2))
+        add("rms", te=(1, 2, 3), remainder=True, cost=4)  # test rows inside the family block: stays tractable if an implementation exchanges the two index sets
         add("rms", measure="lre", te=(4,), cost=5)
         add("rms", measure="grd", p=2, Vy="R513", te=(4, 1), cost=6)
         add("train-bound", te=(0, 1, 2, 3), p=2, Vy="R513", remainder=True, cost=4)
